@@ -28,12 +28,20 @@ type outAttr struct {
 	Mature bool   `json:"mature"`
 	Pres   int    `json:"presence"` // presence at the start of a sequence (presence events change it)
 	Amount uint64 `json:"amount"`
+	// Twin: the output is immature by its confirmed record while its unconfirmed (pool) copy claims maturity.
+	// That is what the wallet really holds between attaching a block and the pool's removal message: the pool
+	// copy of a vote / coinbase output is built with height 0. Only with Mature=false and presence "both",
+	// and only in families without presence events (the confirmed record decides as long as it exists).
+	Twin bool `json:"pool_copy_claims_maturity,omitempty"`
 }
 
 func (a outAttr) String() string {
 	m := "mature"
 	if !a.Mature {
 		m = "immature"
+	}
+	if a.Twin {
+		m = "immature(pool-copy-mature)"
 	}
 	return fmt.Sprintf("%c/%c/%s/%s/%s/%d", "ab"[a.Acct], "XY"[a.Asset], []string{"novote", "vote-k"}[a.Vote], m, presName[a.Pres], a.Amount)
 }
